@@ -139,6 +139,7 @@ class World:
             self.constructing = False
             return
         boot.set_run_key(run_key)
+        self.run_key = run_key
         self.constructing = True
         self._hook_depth = 0
         with observe.session(self._on_op):
